@@ -4,18 +4,21 @@
 use super::*;
 
 /// K1 + K3 (complete: every u16), one call of from_u16 per code:
-/// K3: the set of codes kanata knows is exactly 0..=748 and 767 (749..=766 are placeholder
-///     variants without an OS mapping on the unchanged tree); the reserved no-op output range
-///     0x2a4..=0x2ad lies inside it.
+/// K3: every code of 0..=748 and 767 is known (749..=766 are placeholder variants without an OS
+///     mapping on the unchanged tree; giving them one later is not a violation), nothing above
+///     KEY_MAX is known, and the reserved no-op output range 0x2a4..=0x2ad is known.
 /// K1: whatever code the OS layer accepts survives every conversion: from_u16(c) = Some(o)
 ///     ==> o.as_u16() = c, KeyCode::from(o) has the same number, and converting back gives o.
 ///     "The internal and OS code spaces coincide value for value."
 #[kani::proof]
 fn c11_k_codes() {
     let c: u16 = kani::any();
-    let known = c <= 748 || c == 767;
     let r = OsCode::from_u16(c);
-    assert!(r.is_some() == known);
+    // no key that kanata knows today may become unknown (a dropped table row) ...
+    assert!(!(c <= 748 || c == 767) || r.is_some());
+    // ... and every known code is a valid layer-row column (see c02_k_key_max_fits_row); new
+    // codes may be added inside that range without breaking the property
+    assert!(r.is_none() || c <= OsCode::KEY_MAX as u16);
     assert!(!(c >= 0x2a4 && c <= 0x2ad) || r.is_some());
     if let Some(o) = r {
         assert!(o.as_u16() == c);
